@@ -136,6 +136,17 @@ def constructors():
         dq2 = diskcache.Deque('xy', directory=os.path.join(d, 'dq'))
         if list(dq2) != [2, 3, 4, 'x', 'y']:
             bad.append('Deque(iterable, directory=existing) does not extend the persisted contents')
+        # opening a directory never alters what it holds: a handle with a SMALLER maxlen than the persisted length
+        # (constructor, unpickled bounded handle, copy) sees every item; only later appends trim
+        full = diskcache.Deque([1, 2, 3, 4, 5, 6], directory=os.path.join(d, 'dqlong'))
+        small = diskcache.Deque(directory=os.path.join(d, 'dqlong'), maxlen=3)
+        blob = pickle.dumps(small)
+        again = pickle.loads(blob)
+        copied = small.copy()
+        if list(small) != [1, 2, 3, 4, 5, 6] or list(full) != [1, 2, 3, 4, 5, 6] or list(again) != [1, 2, 3, 4, 5, 6] or list(copied) != [1, 2, 3, 4, 5, 6] \
+                or small.maxlen != 3 or again.maxlen != 3:
+            bad.append('opening a Deque directory with a smaller maxlen (constructor / unpickling / copy) altered the persisted items: %r %r %r' % (
+                list(full), list(again), list(copied)))
         ix = diskcache.Index(os.path.join(d, 'ix'), {'a': 1, 'b': 2}, c=3)
         if list(ix.items()) != [('a', 1), ('b', 2), ('c', 3)]:
             bad.append("Index(directory, {'a': 1, 'b': 2}, c=3) does not hold those items in that order")
